@@ -974,6 +974,20 @@ func plDropScenarios(thorough bool) ([]*plScenario, map[string]map[string]bool) 
 			Drivers: []plDriver{{Kind: "start", Coll: 0}, {Kind: "start", Coll: 1}, {Kind: "start", Coll: 2}}, HeavyBound: 1, MsgPosPChannel: true})
 		synth["drop:restart-collection-beside-forwarded"] = map[string]bool{"coll/default/d": true}
 	}
+	// the same for a partition dropped while the task was down: its synthetic drop messages are generated on both
+	// handlers of the collection while one of them is emitting a pack forwarded to it
+	{
+		c1 := mkColl(101, "c1", []string{"src-dml_0", "src-dml_1"}, []string{"tgt-dml_0", "tgt-dml_1"})
+		c2 := mkColl(102, "c2", []string{"src-dml_0"}, []string{"tgt-dml_1"})
+		c1.SeekMs = 990
+		withPartition(c1, true)
+		c1.Shards[0].Script = []plPack{pkIns(1000)}
+		c2.Shards[0].Script = []plPack{pkIns(1005)}
+		out = append(out, &plScenario{Name: "drop:restart-partition-beside-forwarded", SrcN: 2, TgtN: 2, Colls: []*plColl{c1, c2},
+			Drivers: []plDriver{{Kind: "start", Coll: 0}, {Kind: "start", Coll: 1, AfterFirst: true},
+				{Kind: "addpart", Coll: 0, Part: "p1", PartState: pb.PartitionState_PartitionDropped, AfterFirst: true}}, HeavyBound: 1, MsgPosPChannel: true})
+		synth["drop:restart-partition-beside-forwarded"] = map[string]bool{"part/default/c1/p1": true}
+	}
 	// the dropped collection has no checkpoint of its own (created and dropped while the task was down) and joins the
 	// handler of a collection that was resumed from one: the synthetic drop is generated at the handler's position
 	{
